@@ -265,7 +265,7 @@ func runC15(rc *RunCtx) {
 				case 1:
 					m = pg.ValidSend(rc.Rand.Intn(2) == 0)
 				case 2:
-					m = pg.Replacement([]string{"own-message", "own-deposit"}[rc.Rand.Intn(2)])
+					m = pg.Replacement(ReplacementClasses[rc.Rand.Intn(len(ReplacementClasses))])
 				default:
 					m = g.Inbound(false)
 				}
